@@ -178,6 +178,29 @@ def r1r2(ctx, facts):
                     why = "destroying primitive at %s is %s" % (x.loc(bb), "not inside a loop (only one slot destroyed)" if not inl else
                                                                 "not restricted to the indices named by the `has` mask (uninitialised slots destroyed / masked ones skipped)")
             ctx.ob("C08-R1", "%s::clean destroys exactly the masked slots" % st, ok, b.loc(), "" if ok else why)
+            # ... and the walk over the slots is not skipped: every path of clean() reaches the loop (or the exhaustive iterator consumer) the
+            # destroying primitive sits in, except under `!needs_drop::<T>()` for the COMPONENT type T (nothing to destroy then)
+            heads = []
+            for x, dbb, io in destroy:
+                if x is b:
+                    heads += [nbb for nbb, nt in b.calls() if nt["callee"].get("name") == "next" and nt["callee"].get("trait") == "std::iter::Iterator"
+                              and dbb in b.reachable(nbb) and nbb in b.reachable(dbb)]
+                elif x.kind == "Closure":
+                    site = facts.closure_site(x)
+                    if site and site[0].path == b.path:
+                        heads += [cbb for cbb, ct in b.calls() if ct["callee"].get("trait") == "std::iter::Iterator" and
+                                  any(b.operand_origin(a) == ("agg", site[1], site[2], ()) for a in ct["args"][1:])]
+                else:
+                    heads += [cbb for cbb, ct in b.calls() if any(tb.path == x.path for tb in facts.targets(ct["callee"]))]
+            if ok and heads:
+                comp = (im.get("trait_args") or [""])[0]
+                removed = set()
+                for e in b.bool_guard_edges(lambda gbb, gt: gt["callee"].get("name") == "needs_drop" and (gt["callee"].get("substs") or [""])[0] == comp):
+                    removed.add(e["false_edge"])
+                okr, wit = b.must_pass(0, heads, removed=removed)
+                ctx.ob("C08-R1", "%s::clean always walks the slots" % st, okr, b.loc(),
+                       "" if okr else "clean() can return without visiting the slots (path %s): components still in the storage at clear() / drop are never "
+                       "destroyed (only `!needs_drop::<%s>()` - the component type - may skip the walk)" % (b.fmt_path(wit), comp))
         elif kind == "wrapper":
             dels = [bb for bb, t in b.calls() if t["callee"].get("path") == US + "::clean" and b.arg_origin(bb, 0)[:2] == ("param", 1)
                     and b.arg_origin(bb, 1) == ("param", 2, ())]
